@@ -381,7 +381,7 @@ where
         };
 
         let picture_width_indication = (((cpfmt & 0x07FC00) >> 10) as u16 + 1) * 4;
-        let picture_height_indication = ((cpfmt & 0x0000FF) as u16) * 4;
+        let picture_height_indication = ((cpfmt & 0x0001FF) as u16) * 4;
 
         Ok(CustomPictureFormat {
             pixel_aspect_ratio,
